@@ -213,8 +213,9 @@ def P_safe_nonblocking(c, np): P_nonblocking(c, np)
 PROGRAMS = [P_read_paths, P_write_paths, P_redef_from_indep, P_safe_datamode_header, P_safe_redef_from_indep, P_safe_redef_move, P_safe_nonblocking, P_enddef, P_enddef_coll_hdr, P_numrecs, P_fill, P_redef_move, P_redef_move_multi, P_redef_move_coll, P_blocking, P_nonblocking, P_datamode_header, P_open_read, P_varn_vard]
 
 
-def mkcase(prog, np, fault=None, tag='', ledger=False):
+def mkcase(prog, np, fault=None, tag='', ledger=False, injview=False):
     c = Case('%s-np%d%s' % (prog.__name__, np, tag), np, opts=dict(fault='%d:%d:%d' % fault, sched='off') if fault else dict(sched='off'))
+    if injview: c.opts['injview'] = '1'       # the injectable calls are the MPI_File_set_view calls (C17's ledger programs)
     c.op('*', 'env', PNETCDF_SAFE_MODE='1' if prog.__name__.startswith('P_safe') else '0')     # the environment outlives a case inside one job: always set it
     prog(c, np)
     if ledger: c.op('*', 'ledger')        # C17 re-runs these programs, with faults, for what the library still holds at the end
